@@ -151,6 +151,9 @@ Unprep(t, x) ==
          [] l \in {"timestamp-millis", "local-timestamp-millis"} /\ x.p = "int" ->
               LET r == DateTimeOfMicros(IMulSmall(ix, 1000), l = "timestamp-millis") IN IF r.ok THEN r.v ELSE bad
          [] l = "uuid" /\ x.p = "str" -> LET u == UuidOfText(x.cp) IN IF u.ok THEN [p |-> "uuid", hex |-> u.hex] ELSE bad
-         [] l = "decimal" /\ x.p = "bytes" -> IF x.by = <<>> THEN bad ELSE DecimalOfUnscaled(FromTwosBE(x.by), t.lt.scale)
+         [] l = "decimal" /\ x.p = "bytes" ->
+              \* stored integers with more digits than the precision are not decimals of this type (readers round them): no defined value
+              IF x.by = <<>> \/ Len(NToDigits(FromTwosBE(x.by).mag)) > t.lt.prec THEN bad
+              ELSE DecimalOfUnscaled(FromTwosBE(x.by), t.lt.scale)
          [] OTHER -> x
 =============================================================================
